@@ -89,6 +89,7 @@ static void op_effect(int k)
 	vfs_tick(1);
 	if (ops[k].kind == K_EXT) {
 		struct vfile *f = vfs_find(pre_path);
+		nx_trace_ok = 0;	/* an outside-world event: not reproducible by feeding keys to the stock binary */
 		char buf[64];
 		snprintf(buf, sizeof(buf), "ext%ld\n", vfs_clock);
 		if (f)
@@ -402,8 +403,8 @@ static unsigned long long nx_state_hash(void)
 static int nx_leaf_bytes(char *buf, int max)
 {
 	(void) max;
-	strcpy(buf, "q!\n");
-	return 3;
+	strcpy(buf, "w! out\nb\nq!\n");
+	return strlen(buf);
 }
 static void nx_at_exit(void)
 {
@@ -507,12 +508,14 @@ int main(int argc, char **argv)
 {
 	int depth;
 	nv_init(argc, argv);
-	depth = atoi(nv_arg(argc, argv, "depth", nv_thorough ? "7" : "5"));
+	depth = atoi(nv_arg(argc, argv, "depth", nv_thorough ? "6" : "4"));
 	nx_init(argc, argv, depth, 1 << 22);
 	nx_hist_name = hist_name;
 	nx_op_effect = op_effect;
 	nx_pre_state = pre_state;
 	nvx_close_hook = close_hook;
+	nx_trace_every = atoi(nv_arg(argc, argv, "trace", nv_thorough ? "4999" : "701"));
+	nx_trace_stdout = 1;
 	setenv("EXINIT", "", 1);
 	if (nv_arg(argc, argv, "cfg", NULL)) {
 		run_config(atoi(nv_arg(argc, argv, "cfg", "0")), depth);
